@@ -117,7 +117,7 @@ Lemma analyse_fxline ll l :
   {| f_conv := label_part l ++ fx_field l ++ [nl];
      f_regular := true;
      f_cont := negb (is_space (fx_c6 l) || Ascii.eqb (fx_c6 l) "0"%char);
-     f_long := false; f_excess := [] |}.
+     f_long := false; f_omp := false; f_excess := [] |}.
 Proof.
   intros (Hlen & Hlab & Hns & _ & Hw & _).
   destruct (length5 _ Hlen) as (a & b & c & d & e & El).
@@ -176,7 +176,8 @@ Qed.
 Lemma analyse_comment ll c0 rest :
   wf_fxirr (FxComment c0 rest) ->
   exists lg ex, analyse ll (c0 :: rest ++ [nl]) =
-  {| f_conv := bang :: rest ++ [nl]; f_regular := false; f_cont := false; f_long := lg; f_excess := ex |}.
+  {| f_conv := bang :: rest ++ [nl]; f_regular := false; f_cont := false; f_long := lg; f_omp := false;
+     f_excess := ex |}.
 Proof.
   intros (Hc & Homp & _). unfold analyse.
   cbn [firstn length]. rewrite Hc.
@@ -210,7 +211,8 @@ Qed.
    are the blanks of its statement field *)
 Lemma analyse_blank ll n : exists lg,
   analyse ll (spaces n ++ [nl]) =
-  {| f_conv := spaces (n - 6) ++ [nl]; f_regular := false; f_cont := false; f_long := lg; f_excess := [] |}.
+  {| f_conv := spaces (n - 6) ++ [nl]; f_regular := false; f_cont := false; f_long := lg; f_omp := false;
+     f_excess := [] |}.
 Proof.
   destruct n as [|[|[|[|[|[|[|m]]]]]]]; try (eexists; reflexivity).
   unfold analyse. rewrite strip_blank_line.
@@ -251,7 +253,7 @@ Definition fx_conv (l : fxline) : str := label_part l ++ fx_field l ++ [nl].
 Definition fx_fline (l : fxline) : fline :=
   {| f_conv := fx_conv l; f_regular := true;
      f_cont := negb (is_space (fx_c6 l) || Ascii.eqb (fx_c6 l) "0"%char);
-     f_long := false; f_excess := [] |}.
+     f_long := false; f_omp := false; f_excess := [] |}.
 
 Lemma analyse_fx ll l : wf_fxline l -> analyse ll (render_fxline l) = fx_fline l.
 Proof. intros H. rewrite (analyse_fxline ll l H). reflexivity. Qed.
@@ -267,7 +269,7 @@ Proof.
 Qed.
 
 (* the converted text of a statement line when it is followed by a continuation line *)
-Definition fx_conv_continued (l : fxline) : str := insert_continuation (fx_conv l) ++ [nl].
+Definition fx_conv_continued (l : fxline) : str := insert_continuation (fx_conv l) 0 ++ [nl].
 
 Lemma map_conv_irr ll irrs : Forall wf_fxirr irrs ->
   map f_conv (map (fun i => analyse ll (render_fxirr i)) irrs) = map irr_conv irrs.
@@ -300,7 +302,7 @@ Proof.
     cbn [flat_map]. rewrite <- !app_assoc. rewrite convert_go_irr by assumption.
     cbn [app convert_go fst snd]. rewrite (analyse_fx ll k Hk).
     change (f_regular (fx_fline k)) with true. cbv iota. rewrite (cont_flag_continuation k Hkc).
-    cbn [app map]. cbn [continue_line fx_fline f_long f_regular f_conv andb negb].
+    cbn [app map]. cbn [continue_line fx_fline f_long f_regular f_conv f_omp andb negb].
     rewrite (map_conv_irr ll irrs Hi).
     destruct (IH k rest Hk Hr) as (last & E & El). exists last. split.
     + cbn [map combine flat_map fst snd]. rewrite E. fold (fx_conv_continued prev).
@@ -500,12 +502,12 @@ Proof.
   intros Hwf Hc He. destruct (stmt_part_clear l Hwf Hc He) as (P1 & P2).
   assert (E : fx_conv l = fx_stmt_part l ++ render_comment (fx_comment l) ++ [nl]).
   { unfold fx_conv, fx_field, fx_stmt_part. now rewrite <- !app_assoc. }
-  unfold fx_conv_continued, insert_continuation, inline_comment_start. rewrite E.
+  unfold fx_conv_continued, insert_continuation, inline_comment_start. cbn [from skipn]. rewrite E.
   rewrite (scan_text _ None 0 _ P1), P2.
   destruct (fx_comment l) as [t|]; cbn [render_comment].
   - assert (B : forall i r, inline_comment_from None i (bang :: r) = Some i) by reflexivity.
     cbn [app]. rewrite B.
-    rewrite Nat.add_0_r, firstn_exact, skipn_exact, (rstrip_stmt_part l Hwf).
+    cbv zeta. rewrite !Nat.add_0_r, firstn_exact, skipn_exact, (rstrip_stmt_part l Hwf).
     change (bang :: t ++ [nl]) with ((bang :: t) ++ [nl]).
     rewrite rstrip_app_ws by (constructor; [reflexivity|constructor]).
     rewrite rstrip_cons_ns by reflexivity. rewrite <- !app_assoc. reflexivity.
